@@ -18,6 +18,16 @@ theorem version_constants_distinct :
     Gen.Netconf.V1Dot0 ≠ Gen.Netconf.V1Dot1 ∧ Gen.Netconf.V1Dot0 ≠ [] ∧ Gen.Netconf.V1Dot1 ≠ [] ∧
     Gen.Netconf.v1Dot0Cap ≠ Gen.Netconf.v1Dot1Cap := by decide
 
+/-- obligation on the regenerated constants: the version strings and base capability URIs are the
+ones RFC 6241 §8.1 / RFC 4741 fix -/
+theorem base_constants_are_rfc :
+    Gen.Netconf.V1Dot0 = [49,46,48] ∧ Gen.Netconf.V1Dot1 = [49,46,49] ∧
+    Gen.Netconf.v1Dot0Cap = [117,114,110,58,105,101,116,102,58,112,97,114,97,109,115,58,110,101,116,
+      99,111,110,102,58,98,97,115,101,58,49,46,48] ∧
+    Gen.Netconf.v1Dot1Cap = [117,114,110,58,105,101,116,102,58,112,97,114,97,109,115,58,110,101,116,
+      99,111,110,102,58,98,97,115,101,58,49,46,49] ∧
+    Gen.Netconf.v1Dot0Delim = [93,93,62,93,93,62] := by decide
+
 /-- `determineVersion` is the specification table, for every capability list (any extra
 capabilities, any order, duplicates) and each of the three preferences. -/
 theorem version_table (caps : List Bytes) (p : Pref) :
